@@ -110,7 +110,23 @@ c16 = simple(C16_PLAIN, [], PAYLOAD_FN + ["radio_status::parse_radio, SotdmaMess
 C14_PLAIN = ["c14_t01", "c14_t04", "c14_t09", "c14_t10", "c14_t11", "c14_t18", "c14_t27", "c14_t06", "c14_t08", "c14_t17", "c14_t07",
              "c14_t13", "c14_t20", "c14_t16", "c14_t15"]
 C14_TEXT = ["c14_t19", "c14_t21", "c14_t24", "c14_t05", "c14_t12", "c14_t14"]
-c14 = simple(C14_PLAIN, C14_TEXT, PAYLOAD_FN + ["nom::multi::many_m_n / nom_noalloc::many_m_n", "parsers::remaining_bits"],
+C14_QUICK_P = ["c14_t10", "c14_t27", "c14_t06", "c14_t08", "c14_t17", "c14_t07", "c14_t13", "c14_t20", "c14_t16", "c14_t15"]
+C14_QUICK_T = ["c14_t24", "c14_t05", "c14_t12", "c14_t14"]
+
+
+def c14(res, tier, seed):
+    if tier == "quick":
+        f = simple(C14_QUICK_P, C14_QUICK_T, *C14_ARGS)
+    else:
+        f = simple(C14_PLAIN, C14_TEXT, *C14_ARGS)
+    r = f(res, tier, seed)
+    if tier == "quick":
+        res.assumptions.append("quick tier: the variable-length types (5, 6, 7, 8, 12-17, 20, 24) and the short fixed ones (10, 27); the 168..312-bit "
+                               "fixed layouts 1-4, 9, 11, 18, 19, 21 (short payload => error) run in the thorough tier (3-5 min each)")
+    return r
+
+
+C14_ARGS = ( PAYLOAD_FN + ["nom::multi::many_m_n / nom_noalloc::many_m_n", "parsers::remaining_bits"],
              {"payload": "symbolic length 0..=spec maximum + 2 bytes per type, all contents symbolic", "unwind": 7},
              "Kani/CBMC: per type, symbolic payload length; reject <=> mandatory part missing; element count = complete elements present; reported values = bits at spec position (zero beyond the end)",
              ["lengths the specification does not produce (type 15: 76..87 and 120..159 bits, type 17: 80..119 bits) are neutral on accept/reject",
@@ -135,8 +151,8 @@ def c15(res, tier, seed):
             "trusted": KANI_TRUSTED}
 
 
-C13_QUICK = ["c13_t24b", "c13_t14_k01", "c13_t14_k02", "c13_t14_k04", "c13_t14_k05", "c13_t14_k06", "c13_t14_k08", "c13_t12_k01", "c13_t12_k04", "c13_t12_k08"]
-C13_LONG = ["c13_t14_k12", "c13_t14_k16", "c13_t14_k20", "c13_t12_k20", "c13_t24a", "c13_t19", "c13_t21", "c13_t05", "c13_t05_trunc"]
+C13_QUICK = ["c13_t14_k01", "c13_t14_k02", "c13_t14_k04", "c13_t14_k05", "c13_t14_k06", "c13_t14_k08", "c13_t12_k01", "c13_t12_k04", "c13_t12_k08"]
+C13_LONG = ["c13_t24b", "c13_t14_k12", "c13_t14_k16", "c13_t14_k20", "c13_t12_k20", "c13_t24a", "c13_t19", "c13_t21", "c13_t05", "c13_t05_trunc"]
 
 
 def c13(res, tier, seed):
@@ -144,17 +160,18 @@ def c13(res, tier, seed):
     if tier == "quick":
         for h in C13_QUICK:
             jobs += K(h, ("std",), timeout=900)
-        for h in ("c13_t14_k04", "c13_t24b"):
+        for h in ("c13_t14_k04",):
             jobs += K(h, ("none",), timeout=900)
     else:
         for h in C13_QUICK:
             jobs += K(h, ALL, timeout=1800)
         for h in C13_LONG:
-            jobs += K(h, ("std", "none"), timeout=2700)
+            jobs += K(h, ("std", "none"), timeout=2700, mem_gb=30)
     run_kani_jobs(res, jobs)
     res.assumptions += ["stub core::str::from_utf8 -> ASCII-asserting stub (its assertion is the 'always valid ASCII' clause)",
-                        "quick: text fields of 3/4/7 characters (type 24 B) and safety texts of 1..8 characters; thorough adds the 20-character "
-                        "fields (24 A, 19, 21, 5 incl. a truncated destination) and safety texts up to 20 characters; longer safety texts "
+                        "quick: safety texts (types 12, 14) of 1..8 characters; thorough adds type 24 B (3/4/7 characters), the 20-character "
+                        "fields (24 A, 19, 21, 5 incl. a truncated destination) and safety texts up to 20 characters (a harness that exceeds its "
+                        "time / memory cap makes the thorough run inconclusive); longer safety texts "
                         "(spec maximum 156/161) are outside the bound"]
     return {"functions_encoded": ["parsers::parse_6bit_ascii, sixbit_to_ascii, nom::multi::count / nom_noalloc::count, str::trim_start/trim_end_matches/trim_end",
                                   "the carrying message parsers"],
@@ -287,4 +304,16 @@ def c17(res, tier, seed):
     return m_meta(tier)
 
 
-CHECKS = {"C03": c03, "C04": c04, "C10": c10, "C11": c11, "C12": c12, "C16": c16, "C14": c14, "C05": c05, "C06": c06, "C17": c17, "C01": c01, "C13": c13, "C15": c15, "C09": c09k}
+def c09(res, tier, seed):
+    import mdispatch
+    mdispatch.run(res, ("std", "none") if tier == "quick" else ALL)
+    c09k(res, tier, seed)
+    res.assumptions += ["dispatch (engine M): the per-type decoders are nondeterministic callees (they are C04's subject); message_type returns any value < 64 or an error",
+                        "leaves (Kani): message_type(d) == d[0] >> 2 for 1..4 bytes, Err for empty; each decoded struct's own message_type field == first six bits"]
+    return {"functions_encoded": ["messages::parse (MIR, all arms)", "parsers::message_type (Kani)", "<X as AisMessageType>::parse own type field (Kani)"],
+            "bounds": {"type_values": "all 64", "payload": "arbitrary (decoders abstracted) / spec length (Kani leaves)"},
+            "technique": "symbolic execution of the dispatcher's MIR against the M.1371 type table (z3) + Kani leaves",
+            "trusted": M_TRUSTED + KANI_TRUSTED}
+
+
+CHECKS = {"C03": c03, "C04": c04, "C10": c10, "C11": c11, "C12": c12, "C16": c16, "C14": c14, "C05": c05, "C06": c06, "C17": c17, "C01": c01, "C13": c13, "C15": c15, "C09": c09}
